@@ -330,9 +330,12 @@ class PolygonFilter(object):
     @staticmethod
     def remove(unique_id):
         """Remove a polygon filter from `PolygonFilter.instances`"""
-        for p in PolygonFilter.instances:
+        # Do not use `list.remove` here: it compares by `__eq__` (the
+        # geometry) and would remove an equal filter with another id.
+        for ii, p in enumerate(PolygonFilter.instances):
             if p.unique_id == unique_id:
-                PolygonFilter.instances.remove(p)
+                del PolygonFilter.instances[ii]
+                break
 
     def save(self, polyfile, ret_fobj=False):
         """Save all data to a text file (appends data if file exists).
